@@ -75,8 +75,29 @@ def key_match(it, entry, key):
     return ops.conj([head, rng])
 
 
+def _lookup_layered(it, d, key):
+    """update chain containing whole dictionaries ('layer' entries, from dict.update with an
+    abstractly given dictionary): newest first, branching entry by entry"""
+    for kind, k, v in reversed(d.entries):
+        if kind == 'layer':
+            f, val = lookup(it, k, key)
+            if f:
+                return True, val
+            continue
+        m = key_match(it, (kind, k, v), key)
+        if m is False:
+            continue
+        if m is True or it.p.branch(m):
+            return True, v
+    if d.base is not None:
+        return d.base(it, key)
+    return False, None
+
+
 def lookup(it, d, key):
     """Returns (found: bool, value).  Branches over the entries that may match."""
+    if any(e[0] == 'layer' for e in d.entries):
+        return _lookup_layered(it, d, key)
     cindex, sym = _index(d)
     h = hashable_key(key)
     if h is not None or key is None:
@@ -166,9 +187,13 @@ def dict_keys(it, d):
 
 
 def dict_truthy(it, d):
-    if d.entries:
+    if any(e[0] != 'layer' for e in d.entries):
         return True
+    if d.entries:
+        raise Unsupported('truthiness of a dictionary updated with an abstract dictionary')
     if d.base is not None:
+        if d.size is not None:
+            return it.p.branch(int_term(d.size) > 0)
         raise Unsupported('truthiness of dictionary with symbolic background')
     return False
 
